@@ -279,9 +279,177 @@ def _fresh_policies_rule(ctx):
         raise AnalysisError('C08.R10: build_policies call sites lost')
 
 
+def _snake(name):
+    import re
+    return re.sub(r'(?<!^)(?=[A-Z])', '_', name).lower()
+
+
+def _policy_factories_rule(ctx):
+    """Which policies a task gets: each factory builds its policy exactly
+    when the task (or task-defaults) spec configures it - a number above
+    zero or an expression for wait-before / wait-after / timeout, any
+    truthy value for pause-before / concurrency / fail-on / retry - from the
+    value of its own getter."""
+    from mstatic.rules import dt
+    prog, sd = ctx.prog, ctx.sd
+    r = ctx.rule('R11', 'each policy factory builds its policy exactly when '
+                 'the spec configures it, from its own getter', 'DT')
+    POL = 'mistral.engine.policies'
+    EXPR = '<% $.x %>'
+    n_f = 0
+    for q in sorted(prog.funcs):
+        if not (q.startswith(POL + '.build_') and q.endswith('_policy')):
+            continue
+        f = prog.func(q)
+        key = q[len(POL + '.build_'):-len('_policy')]
+        getter = 'policies_spec.get_%s()' % key
+        numeric = key in ('wait_before', 'wait_after', 'timeout')
+        dom = (0, 1, 3, EXPR) if numeric else (None, False, 0, 2, EXPR, 'OBJ')
+        t = dt.Table(ctx, f, [('policies_spec', (None, 'OBJ')),
+                              (getter, dom)],
+                     types={getter: None})
+        n_f += 1
+        built, absent = set(), set()
+        ctor = []
+        for n in t.cfg.nodes:
+            if not (n.kind == 'stmt' and isinstance(n.ast, ast.Return)):
+                continue
+            for v in t.full_at(n):
+                e = n.ast.value
+                while isinstance(e, ast.IfExp):
+                    tr = sd.truth(t.ev(e.test, v))
+                    if tr is UNK or tr is RAISES:
+                        e = None
+                        break
+                    e = e.body if tr else e.orelse
+                iv = v[:t.n_in]
+                if e is None:
+                    built.add(iv)
+                    absent.add(iv)
+                elif isinstance(e, ast.Call):
+                    built.add(iv)
+                    if e not in ctor:
+                        ctor.append(e)
+                else:
+                    absent.add(iv)
+
+        def want(d):
+            if d['policies_spec'] is None:
+                return False
+            g = d[getter]
+            if numeric:
+                return isinstance(g, str) or g > 0
+            return bool(g)
+        exp = {v for v in t.init_inputs if want(dict(zip(t.keys, v)))}
+        extra = sorted(built - exp, key=repr)
+        missing = sorted((exp - built) | (absent & exp), key=repr)
+        msg = ''
+        if extra:
+            msg += 'the policy is built although nothing configures it, ' \
+                   'e.g. %s. ' % dict(zip(t.keys, extra[0]))
+        if missing:
+            msg += 'the configured policy is not built, e.g. %s' % dict(
+                zip(t.keys, missing[0]))
+        r.check(not extra and not missing,
+                ctx.construct(f, extra='built exactly when configured'), msg,
+                ctx.loc(f))
+        # the right class, fed from the right getter
+        okc = bool(ctor)
+        for c in ctor:
+            cls = U.call_name(c)
+            okc = okc and _snake(cls[:-len('Policy')]) == key
+            if key == 'retry':
+                init = prog.func(POL + '.RetryPolicy.__init__')
+                okc = okc and [norm(U.canon_expr(f.node, a), 200)
+                               for a in c.args] == [
+                    'policies_spec.get_retry().get_%s()' % p_
+                    for p_ in init.params[1:]] and not c.keywords
+            else:
+                okc = okc and len(c.args) == 1 and norm(U.canon_expr(
+                    f.node, c.args[0]), 200) == getter
+        r.check(okc, ctx.construct(f, extra='class and getter agree'),
+                'the factory does not build %sPolicy from %s' % (
+                    ''.join(x.capitalize() for x in key.split('_')), getter),
+                ctx.loc(f))
+    if n_f < 7:
+        raise AnalysisError('C08.R11: only %d policy factories' % n_f)
+    # the list of factories names all of them
+    gf = prog.func(POL + '.get_policy_factories')
+    names = {x.id for x in ast.walk(gf.node) if isinstance(x, ast.Name)
+             and x.id.startswith('build_')}
+    allf = {q.rsplit('.', 1)[1] for q in prog.funcs
+            if q.startswith(POL + '.build_') and q.endswith('_policy')}
+    r.check(names == allf, ctx.construct(gf, extra='lists every factory'),
+            'get_policy_factories does not list %s' % sorted(allf - names),
+            ctx.loc(gf))
+    # task-level policy first, workflow default only when absent
+    cl = prog.func(POL + '.construct_policies_list')
+    # names of the locals are read off the code (a rename is not a change)
+    loops = [x for x in own_nodes(cl.node) if isinstance(x, ast.For) and
+             isinstance(x.target, ast.Name) and
+             U.phas(x.iter, 'get_policy_factories()')]
+    if len(loops) != 1:
+        raise AnalysisError('C08.R11: construct_policies_list does not loop '
+                            'over get_policy_factories()')
+    fac = loops[0].target.id
+    p0, p1 = cl.params[0], cl.params[1]
+    pol = [x.targets[0].id for x in own_nodes(cl.node)
+           if isinstance(x, ast.Assign) and
+           isinstance(x.targets[0], ast.Name) and
+           norm(x.value) == '%s(%s)' % (fac, p0)]
+    if len(pol) != 1:
+        raise AnalysisError('C08.R11: the task-level factory call is lost')
+    tc = dt.Table(ctx, cl, [('%s(%s)' % (fac, p0), (None, 'OBJ')),
+                            (p1, (None, 'OBJ'))],
+                  extra_vars=[(pol[0], (None, 'OBJ'))])
+    dflt = [n for n, c in tc.cfg.calls(
+        lambda c: U.call_name(c) == fac and c.args and
+        norm(c.args[0]) == p1)]
+    r.check(len(dflt) == 1 and tc.inputs_at(dflt[0]) == {(None, 'OBJ')},
+            ctx.construct(cl, extra='defaults only when absent'),
+            'the task-defaults policy is consulted in other situations than '
+            '"the task itself configures none and defaults exist"',
+            ctx.loc(cl))
+    tc.undecided(r, 'the task-level policy and the task-defaults')
+    bp = prog.func(POL + '.build_policies')
+    td = [x.targets[0].id for x in own_nodes(bp.node)
+          if isinstance(x, ast.Assign) and
+          isinstance(x.targets[0], ast.Name) and
+          norm(x.value) == '%s.get_task_defaults()' % bp.params[1]]
+    if len(td) != 1:
+        raise AnalysisError('C08.R11: build_policies no longer reads the '
+                            'task defaults')
+    DP = '%s.get_policies()' % td[0]
+    GD = '%s.get_task_defaults()' % bp.params[1]
+    tb = dt.Table(ctx, bp, [(bp.params[0], (None, 'OBJ')),
+                            (GD, (None, 'OBJ')),
+                            (DP, (None, 'OBJ'))],
+                  extra_vars=[(td[0], (None, 'OBJ'))],
+                  inline_exclude=(td[0],))
+    cons = tb.call_nodes('construct_policies_list')
+    if len(cons) != 1:
+        raise AnalysisError('C08.R11: build_policies structure lost')
+    tb.check_exact(
+        r, cons[0],
+        lambda d: d[bp.params[0]] is not None or (
+            d[GD] is not None and d[DP] is not None),
+        'the policy list is built', 'built when the task or the defaults '
+        'configure policies')
+    tb.undecided(r, 'the task policies and the task-defaults policies')
+    c = [x for x in tb.cfg.own_nodes(cons[0]) if isinstance(x, ast.Call) and
+         U.call_name(x) == 'construct_policies_list'][0]
+    r.check([norm(U.canon_expr(bp.node, a), 200) for a in c.args][0] ==
+            bp.params[0] and 'get_policies()' in norm(
+                U.canon_expr(bp.node, c.args[1]), 200),
+            ctx.construct(bp, c, extra='task policies, then defaults'),
+            'the task policies and the task-defaults policies are not passed '
+            'in this order', ctx.loc(bp, c))
+
+
 def run(ctx):
     _run(ctx)
     _hooks_rule(ctx)
+    _policy_factories_rule(ctx)
     _fresh_policies_rule(ctx)
     _callbacks_rule(ctx)
     from mstatic.rules import shared
@@ -665,15 +833,7 @@ def _run(ctx):
     r4.check(getters == pkeys, POL + '.get_policy_factories :: coverage',
              'factories cover %s, language has %s'
              % (sorted(getters), sorted(pkeys)), ctx.loc(facs))
-    cl = prog.func(POL + '.construct_policies_list')
-    clcfg = ctx.cfg(cl)
-    okfb = False
-    for n, c in clcfg.calls(lambda c: U.phas(c, '__f(wf_policies)')):
-        okfb = okfb or U.guarded(clcfg, n, 'wf_policies and not policy',
-                                 True)
-    r4.check(okfb,
-             ctx.construct(cl, extra='task-defaults fallback'),
-             'task-defaults policies are not used as a fall-back', ctx.loc(cl))
+    # (the task-defaults fall-back is decided by the table of R11)
 
     # ---- R5 delays and validation -----------------------------------------------------------
     r5 = ctx.rule('R5', 'jobs are delayed by the evaluated policy delay; '
